@@ -57,6 +57,7 @@ def jobs(tier):
     for version in (1, 2):
         out.append(("v%d.hostile-name-into-search-dir" % version, "job_hostile", dict(version=version)))
         out.append(("v%d.two-releases-same-destination" % version, "job_two_releases", dict(version=version, releases=2)))
+    out.extend(rw.matrix_rows(tier, "C14"))
     return out
 
 
@@ -182,7 +183,8 @@ def _is_decoy(content):
 
 
 def judge(E, fs, snap, sizes, expected, protected, layout, shape, tag):
-    roots = rw.SEARCH[layout] + ["/t"]
+    roots = [posixpath.normpath(r) for r in rw.SEARCH[layout]] + ["/t"]
+    search_roots = [posixpath.normpath(r) for r in rw.SEARCH[layout]]
 
     def under(p, roots_):
         return any(p == r or p.startswith(r + "/") for r in roots_)
@@ -218,7 +220,7 @@ def judge(E, fs, snap, sizes, expected, protected, layout, shape, tag):
         if node is None or not tb(sizes[rel] > 0):
             continue
         if d not in snap[0] or not (node.content == snap[0][d]):
-            sources = [c for p, c in snap[0].items() if under(p, rw.SEARCH[layout]) and _pp.basename(p) == rel.split("/")[-1]]
+            sources = [c for p, c in snap[0].items() if under(p, search_roots) and _pp.basename(p) == rel.split("/")[-1]]
             E.check(any(node.content == c for c in sources), tag + ".written-file-is-identical-copy",
                     "%s is not a byte-identical copy of a search-directory file of that name" % d)
             E.check(not _is_decoy(node.content), tag + ".placed-file-verifies", "%s holds a file none of whose bytes verify against the metafile" % d)
